@@ -1034,37 +1034,44 @@ Qed.
 
 (* ------------------------------------------------------------ trimming leaves blocks without existing paths alone *)
 
-Lemma trim_keys_noex ex td keys (i : info) :
-  (forall k s, alookup k i = Some (Some s) -> ex s = false) ->
-  trim_keys true ex td keys i = Ok i.
+(* the repaired loop looks only at absolute values, so the hypothesis is about those alone:
+   whatever relative names exist in the current directory is irrelevant *)
+Lemma abs_from_abs cwd s : isabs s = true -> abs_from cwd s = s.
+Proof. intro H. unfold abs_from. now rewrite H. Qed.
+
+Lemma trim_keys_noex pe ex td keys (i : info) :
+  (forall k s, alookup k i = Some (Some s) -> isabs s = true -> ex s = false) ->
+  trim_keys true pe ex td keys i = Ok i.
 Proof.
   intro H. induction keys as [|k ks IH]; [reflexivity|]. cbn [trim_keys]. unfold trim_key.
   destruct (alookup k i) as [[s|]|] eqn:E; cbn [bind]; try exact IH.
-  rewrite (H k s E). cbn [negb bind]. exact IH.
+  destruct (isabs s) eqn:A; cbn [andb negb bind]; [|exact IH].
+  rewrite (abs_from_abs _ _ A), (H k s E A). cbn [negb bind]. exact IH.
 Qed.
 
-Lemma trim_info_noex ex td (i : info) :
-  (forall k s, alookup k i = Some (Some s) -> ex s = false) -> trim_info ex td i = Ok i.
+Lemma trim_info_noex pe ex td (i : info) :
+  (forall k s, alookup k i = Some (Some s) -> isabs s = true -> ex s = false) ->
+  trim_info pe ex td i = Ok i.
 Proof. intro H. unfold trim_info, trim_info_gen. now apply trim_keys_noex. Qed.
 
-Lemma trim_all_lookup ex td (m m' : amap info) f i i' :
-  trim_all true ex td m = Ok m' -> alookup f m = Some i -> trim_info ex td i = Ok i' ->
+Lemma trim_all_lookup pe ex td (m m' : amap info) f i i' :
+  trim_all true pe ex td m = Ok m' -> alookup f m = Some i -> trim_info pe ex td i = Ok i' ->
   alookup f m' = Some i'.
 Proof.
   revert m'. induction m as [|[g j] m IH]; intros m' H L T; [discriminate|].
-  cbn [trim_all] in H. destruct (trim_info_gen true ex td j) as [j'|] eqn:Ej; [|discriminate].
-  cbn [bind] in H. destruct (trim_all true ex td m) as [r|] eqn:Er; [|discriminate].
+  cbn [trim_all] in H. destruct (trim_info_gen true pe ex td j) as [j'|] eqn:Ej; [|discriminate].
+  cbn [bind] in H. destruct (trim_all true pe ex td m) as [r|] eqn:Er; [|discriminate].
   cbn [bind] in H. injection H as <-. cbn [alookup] in *.
   destruct (str_eqb f g).
   - injection L as ->. unfold trim_info in T. rewrite T in Ej. now injection Ej as ->.
   - now apply IH.
 Qed.
 
-Lemma trim_all_keys ex td (m m' : amap info) : trim_all true ex td m = Ok m' -> akeys m' = akeys m.
+Lemma trim_all_keys pe ex td (m m' : amap info) : trim_all true pe ex td m = Ok m' -> akeys m' = akeys m.
 Proof.
   revert m'. induction m as [|[g j] m IH]; intros m' H; [now injection H as <-|].
-  cbn [trim_all] in H. destruct (trim_info_gen true ex td j) as [j'|]; [|discriminate].
-  cbn [bind] in H. destruct (trim_all true ex td m) as [r|] eqn:Er; [|discriminate].
+  cbn [trim_all] in H. destruct (trim_info_gen true pe ex td j) as [j'|]; [|discriminate].
+  cbn [bind] in H. destruct (trim_all true pe ex td m) as [r|] eqn:Er; [|discriminate].
   cbn [bind] in H. injection H as <-. cbn. f_equal. now apply IH.
 Qed.
 
